@@ -93,9 +93,9 @@ theorem ffObj_launch {k r m} (h : FFObj k r m) (hj : jobObj k r = true) :
   constructor <;> simp only [put, has_add] <;> grind
 
 theorem ffObj_joblog {k r m} (h : FFObj k r m) (hj : m.disk.has .jobinfo = true) :
-    FFObj k r (toDisk .log (unq m)) := by
+    FFObj k r (toDisk .log m) := by
   obtain ⟨h1, h2⟩ := h
-  constructor <;> simp only [toDisk, unq, has_add, has_del] <;> grind
+  constructor <;> simp only [toDisk, has_add] <;> grind
 
 theorem ffObj_jobend {k r m} (h : FFObj k r m) (hj : m.disk.has .jobinfo = true) :
     FFObj k r (toDisk .complete m) := by
